@@ -1,5 +1,6 @@
 import Driver.Util
 import LiquidVerif.Model.CondParse
+import LiquidVerif.Model.CondSpec
 open Lean LiquidVerif.Value LiquidVerif.Cond LiquidVerif.CondParse
 
 namespace Driver.C12
@@ -199,8 +200,20 @@ def handleStr (args : List Json) : Json :=
   | [.str "in", .str a, .str b] => Json.bool (isInfixB a.toList b.toList)
   | _ => jerr "bad-args"
 
+/-- `["c12deep", a, b]` → what `_eq` computes, recursive Liquid equality, and the no-clash / NaN-free predicates -/
+def handleDeep (args : List Json) : Json :=
+  match args with
+  | [a, b] =>
+    match parseVal a, parseVal b with
+    | some a, some b =>
+      Json.mkObj [("eq", Json.bool (liquidEq a b)), ("eq_rev", Json.bool (liquidEq b a)),
+                  ("deep", Json.bool (deepEq a b)), ("noclash", Json.bool (noClashItems a b)),
+                  ("nanfree", Json.bool (nanFree a))]
+    | _, _ => jerr "bad-args"
+  | _ => jerr "bad-args"
+
 def commands : List (String × (List Lean.Json → Lean.Json)) :=
   [("c12cond", handleCond), ("c12parse", handleParse), ("c12table", handleTable), ("c12eval", handleEval),
-   ("c12case", handleCase), ("c12space", handleSpace), ("c12str", handleStr)]
+   ("c12case", handleCase), ("c12deep", handleDeep), ("c12space", handleSpace), ("c12str", handleStr)]
 
 end Driver.C12
